@@ -4,33 +4,59 @@
   Model: `SalsaVerif.Model.Cycle`.  `Reach P env a b` (Proofs/CycleFb.lean) is "there is a
   non-empty path from `a` to `b` in the call graph determined by the inputs `env`"; a node lies
   on a cycle iff `Reach P env x x`.  The Boolean `onCycle` used by the executable reference
-  `fbReference` is sound for it (`c13_onCycle_sound`).
+  `fbReference` is sound for it (`c13_onCycle_sound`) and, for well-formed programs, complete
+  (`c13_reach_complete`, `c13_onCycle_iff`).
 
-  Proved for every program without `Fixpoint` nodes, every entry node and every history:
-    `c13_participants_partial`  a memo is the node's fallback value only with a cycle through the
-                                node as evidence, otherwise it is the body over the results
-                                (the "⇒" half of `c13_participants`, plus the value dichotomy);
+  PROVED for every program without `Fixpoint` nodes, every entry node and every history of
+  requests of one revision (`gets P env Db.empty js`: any number of earlier requests from any
+  entry nodes, successful or panicking):
+    `c13_participants`          FULL, both directions: a memoised `fallback` node holds its
+                                fallback value if it lies on a cycle, and its body over the
+                                memoised results if it does not (`c13_participants_db`: the same
+                                for any justified and complete database);
+    `c13_participants_decided`  the same with the Boolean `onCycle` (well-formed programs);
+    `c13_participants_partial`  (kept) the "⇒" half + value dichotomy, for every strategy;
     `c13_outside`               a node on no cycle = its body over those results (FULL);
     `c13_no_iteration`          heads converge on value immediately: no iteration;
-    `c13_self_call_partial`, `c13_calls_active_partial`
-                                the "⇐" half for nodes that call an active query, in
-                                particular self-loops and the closing node of any cycle;
-    `c13_entry_independent_partial`.
+    `c13_self_call_partial`, `c13_calls_active_partial`  (kept) special cases of "⇐";
+    `c13_entry_independent`     FULL for programs whose cycle nodes are all `fallback` (`CycFb`;
+                                implied by the decidable `allFb P = true`): the memoised value of
+                                a node is the same whichever nodes were requested before, in
+                                whatever order;
+    `c13_reference`             ... and it is the value of the executable reference
+                                `fbReference` (well-formed programs): fallback for nodes on a
+                                cycle, body over the reference for nodes on no cycle;
+    `c13_entry_independent_partial` (kept);
+    `c13_reach_complete`, `c13_onCycle_iff`  completeness of the Boolean reachability
+                                (path shortening by pigeonhole).
+  The proof of "⇐" is the completeness half of the DFS/SCC argument: the invariant `InvC`
+  (Proofs/CycleFbCompleteInv.lean) says that the head set of every cached provisional memo `y`
+  contains every ACTIVE query reachable from `y` through non-active nodes, and that the memoised
+  sets are closed under callees; so a node on a cycle completes either as a head or with a
+  non-empty head set, and takes its fallback in both cases.
 
-  NOT YET PROVED (intended full statements):
-  * `c13_participants` "⇐": `Reach P env x x → memo of x = fallbackValue P x` for every memoised
-    `x` with strategy `fallback`.  What is missing is the completeness half of the DFS/SCC
-    argument: *every* active query reachable from `x` through already completed provisional
-    memos is in the head set `x` completes with (the head sets are proved sound —
-    `InvF.heads` — not complete).  `c13_calls_active_partial` is the base case of that
-    induction (a direct call of an active query); the inductive step needs the invariant
-    "heads(y) = active queries reachable from `y` through non-active nodes" for cached `y`.
-  * `c13_entry_independent` (full) is a corollary of the two halves; the partial version covers
-    nodes off every cycle (by `c13_outside`, given equal callee values) and self-calling nodes.
-  * `Reach P env a b → reach P env P.n a b = true` for well-formed programs (path shortening),
-    i.e. completeness of the Boolean `onCycle` of the executable reference.
+  HISTORY DEPENDENCE (known finding C13/kf1, fb-participant-after-revalidated-head).  The real
+  implementation is history dependent ACROSS REVISIONS (a participant re-executed in a later
+  revision after the head was merely re-validated returns its body value).  The Cycle model does
+  NOT reproduce this and cannot: a write drops every memo (`Db.newRevision _ = Db.empty`,
+  incremental reuse is outside the model), so in the model a later revision is a fresh database
+  and the statements above — which quantify over every history of one revision — are the full
+  truth about the model.  There is therefore no `c13_history_dependence_witness` (its statement
+  is false in the model): `c13_model_not_history_dependent` replays the kf1 scenario
+  (corpus/C13/fallback_differs_after_new_revision.prog: get 1; write; get 2; get 0) in the model
+  and shows the model answers the fallback of node 0 (the implementation answers 111).  The
+  finding stays an implementation-vs-oracle finding of the differential tie, not a theorem.
+
+  NOT PROVED / restrictions:
+  * `c13_entry_independent` and `c13_reference` assume that no `panic`-strategy node lies on a
+    cycle (`CycFb`).  (With `panic` nodes on cycles the request may still succeed when the
+    `panic` node is never re-entered while active; its memo is then its body over the results.
+    Entry independence should still hold but needs a temporal argument — no memoised cycle
+    consists of `panic` nodes only — that is not done.)  `c13_participants` has no such
+    restriction.
 -/
 import SalsaVerif.Proofs.CycleFb
+import SalsaVerif.Proofs.CycleFbCompleteRef
 import SalsaVerif.Props.C12
 
 namespace SalsaVerif.Props.C13
@@ -125,6 +151,125 @@ theorem c13_entry_independent_partial (P : Prog) (env : Nat → Nat) (hNX : NoFi
     (c13_outside P env hNX _ hd₂ _ j₂ v₂ s₂ h₂ x w₂ hx₂ hnc).1]
   exact evalExpr_congr env _ hcal
 
+/-! ## the full statements -/
+
+/-- **completeness of the Boolean reachability** (path shortening): in a well-formed program
+    every path of the input-determined call graph is found with fuel `P.n`. -/
+theorem c13_reach_complete (P : Prog) (env : Nat → Nat) (hW : P.Wf) (a b : Nat)
+    (h : Reach P env a b) : reach P env P.n a b = true :=
+  reach_complete hW h
+
+/-- the Boolean `onCycle` of the executable reference decides "lies on a cycle". -/
+theorem c13_onCycle_iff (P : Prog) (env : Nat → Nat) (hW : P.Wf) (i : Nat) :
+    onCycle P env i = true ↔ Reach P env i i :=
+  onCycle_iff hW i
+
+/-- **c13_participants, any database.**  After a successful request from any entry `j` on any
+    justified (`DbOkF`) and complete (`DbOkC`) database, a memoised `fallback` node holds its
+    fallback value IF (and, up to coincidence of values, only if) it lies on a cycle; a node on
+    no cycle holds its body over the memoised results.  The resulting database is again
+    justified and complete. -/
+theorem c13_participants_db (P : Prog) (env : Nat → Nat) (hNX : NoFixpoint P)
+    (final : List (Nat × Nat)) (hdb : DbOkF P env final) (hdbC : DbOkC P env final)
+    (poisoned : List Nat) (j v : Nat) (s : St)
+    (h : eval P env final poisoned j = .ok (v, s))
+    (x w fv : Nat) (hx : s.final.lookup x = some w) (hstr : (P.node x).strat = .fallback fv) :
+    (Reach P env x x → w = fv % 256) ∧
+    (¬ Reach P env x x → w = evalExpr env (results s) (P.node x).body) ∧
+    DbOkF P env s.final ∧ DbOkC P env s.final := by
+  have hF := (eval_soundF P env hNX hdb poisoned j v s h).2.1
+  have hC := eval_soundC P env hNX hdb hdbC poisoned j v s h
+  have hv := dbOk_value hF hC hx
+  refine ⟨?_, fun hn => (hv.2 hn).1, hF, hC⟩
+  intro hr
+  rw [hv.1 hr ⟨fv, hstr⟩]
+  simp [fallbackValue, hstr]
+
+/-- **c13_participants (FULL).**  After any history `js` of requests of one revision and a
+    successful request from any entry node `j`: a memoised `fallback` node on a cycle of the
+    input-determined call graph holds its fallback value (the "⇐" half, completeness of the
+    head sets), a memoised node on no cycle holds its body over the memoised results. -/
+theorem c13_participants (P : Prog) (env : Nat → Nat) (hNX : NoFixpoint P)
+    (js : List Nat) (j v : Nat) (s : St)
+    (h : eval P env (gets P env Db.empty js).final (gets P env Db.empty js).poisoned j
+      = .ok (v, s))
+    (x w fv : Nat) (hx : s.final.lookup x = some w) (hstr : (P.node x).strat = .fallback fv) :
+    (Reach P env x x → w = fv % 256) ∧
+    (¬ Reach P env x x → w = evalExpr env (results s) (P.node x).body) := by
+  obtain ⟨hd, hdC⟩ :=
+    dbOkFC_gets P env hNX js Db.empty (dbOkF_nil P env) (dbOkC_nil P env)
+  obtain ⟨h1, h2, _⟩ := c13_participants_db P env hNX _ hd hdC _ j v s h x w fv hx hstr
+  exact ⟨h1, h2⟩
+
+/-- the same with the executable `onCycle` (well-formed programs). -/
+theorem c13_participants_decided (P : Prog) (env : Nat → Nat) (hNX : NoFixpoint P) (hW : P.Wf)
+    (js : List Nat) (j v : Nat) (s : St)
+    (h : eval P env (gets P env Db.empty js).final (gets P env Db.empty js).poisoned j
+      = .ok (v, s))
+    (x w fv : Nat) (hx : s.final.lookup x = some w) (hstr : (P.node x).strat = .fallback fv) :
+    w = if onCycle P env x then fv % 256 else evalExpr env (results s) (P.node x).body := by
+  obtain ⟨h1, h2⟩ := c13_participants P env hNX js j v s h x w fv hx hstr
+  split
+  · rename_i hon; exact h1 ((onCycle_iff hW x).mp hon)
+  · rename_i hon; exact h2 (fun hr => hon ((onCycle_iff hW x).mpr hr))
+
+/-- **c13_entry_independent (FULL).**  Programs whose cycle nodes all recover with
+    `cycle_result` (`CycFb`, implied by `allFb P = true`): two successful requests from arbitrary
+    entry nodes `j₁`, `j₂` after arbitrary histories `js₁`, `js₂` give every node memoised by
+    both the same value. -/
+theorem c13_entry_independent (P : Prog) (env : Nat → Nat) (hNX : NoFixpoint P)
+    (hcf : CycFb P env) (js₁ js₂ : List Nat) (j₁ j₂ v₁ v₂ : Nat) (s₁ s₂ : St)
+    (h₁ : eval P env (gets P env Db.empty js₁).final (gets P env Db.empty js₁).poisoned j₁
+      = .ok (v₁, s₁))
+    (h₂ : eval P env (gets P env Db.empty js₂).final (gets P env Db.empty js₂).poisoned j₂
+      = .ok (v₂, s₂))
+    (x w₁ w₂ : Nat) (hx₁ : s₁.final.lookup x = some w₁) (hx₂ : s₂.final.lookup x = some w₂) :
+    w₁ = w₂ := by
+  obtain ⟨hd₁, hc₁⟩ :=
+    dbOkFC_gets P env hNX js₁ Db.empty (dbOkF_nil P env) (dbOkC_nil P env)
+  obtain ⟨hd₂, hc₂⟩ :=
+    dbOkFC_gets P env hNX js₂ Db.empty (dbOkF_nil P env) (dbOkC_nil P env)
+  exact dbOk_unique hcf
+    (eval_soundF P env hNX hd₁ _ j₁ v₁ s₁ h₁).2.1 (eval_soundC P env hNX hd₁ hc₁ _ j₁ v₁ s₁ h₁)
+    (eval_soundF P env hNX hd₂ _ j₂ v₂ s₂ h₂).2.1 (eval_soundC P env hNX hd₂ hc₂ _ j₂ v₂ s₂ h₂)
+    hx₁ hx₂
+
+/-- **c13_reference.**  ... and that value is the one of the executable reference: the fallback
+    for nodes on a cycle, the body over the reference for nodes on no cycle — for every memo
+    and in particular for the answer `v` of the request itself. -/
+theorem c13_reference (P : Prog) (env : Nat → Nat) (hNX : NoFixpoint P) (hW : P.Wf)
+    (hcf : CycFb P env) (js : List Nat) (j v : Nat) (s : St)
+    (h : eval P env (gets P env Db.empty js).final (gets P env Db.empty js).poisoned j
+      = .ok (v, s)) :
+    v = fbReference P env j ∧
+    ∀ x w, s.final.lookup x = some w → w = fbReference P env x := by
+  obtain ⟨hd, hc⟩ :=
+    dbOkFC_gets P env hNX js Db.empty (dbOkF_nil P env) (dbOkC_nil P env)
+  have hS := eval_soundF P env hNX hd _ j v s h
+  have hC := eval_soundC P env hNX hd hc _ j v s h
+  exact ⟨(dbOk_fbReference hW hcf hS.2.1 hC hS.1).symm,
+    fun x w hx => (dbOk_fbReference hW hcf hS.2.1 hC hx).symm⟩
+
+/-! ## the model is not history dependent (known finding C13/kf1 is outside the model) -/
+
+/-- corpus/C13/fallback_differs_after_new_revision.prog with the fallbacks observed there. -/
+def exH : Prog := ⟨[
+  ⟨.fallback 1, .union (.call 1) (.call 2)⟩,
+  ⟨.fallback 37, .union (.call 2) (.const 16)⟩,
+  ⟨.fallback 75, .union (.call 0) (.const 8)⟩]⟩
+
+/-- the kf1 scenario `get 1; write; get 2; get 0` in the model: a write drops every memo, the
+    second revision is a fresh database and node 0 gets its fallback `1` (the implementation
+    answers `111 = 37 ||| 75`, the body over the finalised results).  The model does not
+    reproduce the history dependence of the implementation. -/
+theorem c13_model_not_history_dependent :
+    (∀ db : Db, db.newRevision = Db.empty) ∧
+    (gets exH (fun _ => 0) Db.empty [1]).final.lookup 0 = some 1 ∧
+    (gets exH (fun _ => 0) (gets exH (fun _ => 0) Db.empty [1]).newRevision [2, 0]).final.lookup 0
+      = some 1 ∧
+    (37 ||| 75 : Nat) = 111 :=
+  ⟨fun _ => rfl, by decide, by decide, by decide⟩
+
 /-! ## non-vacuity -/
 
 /-- `n0 = {0} ∪ n1`, `n1 = {1} ∪ (if in0 then n0 else ∅)`, `n2 = {2} ∪ n1`, `n3 = n3 ∪ {0}`,
@@ -164,5 +309,27 @@ example : okOf (·.1) (eval exF envNo [] [] 3) = some 103 := by decide
 example : 3 ∈ callees envNo (exF.node 3).body := by decide
 example : onCycle exF envCyc 0 = true ∧ onCycle exF envCyc 2 = false := by decide
 example : fbReferenceL exF envCyc = [100, 101, 101, 103] := by decide
+
+/-! ### non-vacuity of the full statements -/
+
+example : allFb exF = true ∧ exF.Wf := by decide
+example : CycFb exF envCyc := allFb_cycFb (by decide) envCyc
+/-- after the history `get 2; get 3`, a request of `0` succeeds; `0`, `1` (on the cycle) hold
+    their fallbacks, `2` (outside) its body, whatever was requested first. -/
+example : okOf (fun r => (r.1, r.2.final.lookup 0, r.2.final.lookup 1, r.2.final.lookup 2))
+    (eval exF envCyc (gets exF envCyc Db.empty [2, 3]).final
+      (gets exF envCyc Db.empty [2, 3]).poisoned 0) = some (100, some 100, some 101, some 101) := by
+  decide
+example : okOf (fun r => (r.1, r.2.final.lookup 0, r.2.final.lookup 1, r.2.final.lookup 2))
+    (eval exF envCyc (gets exF envCyc Db.empty [1]).final
+      (gets exF envCyc Db.empty [1]).poisoned 2) = some (101, some 100, some 101, some 101) := by
+  decide
+example : Reach exF envCyc 0 0 := c13_onCycle_sound exF envCyc 0 (by decide)
+example : ¬ Reach exF envCyc 2 2 := fun h => by
+  have := (c13_onCycle_iff exF envCyc (by decide) 2).mpr h
+  revert this; decide
+example : (exF.node 0).strat = .fallback 100 := by decide
+example : reach exF envCyc exF.n 2 0 = true := by decide
+example : allFb exH = true ∧ exH.Wf := by decide
 
 end SalsaVerif.Props.C13
